@@ -126,7 +126,11 @@ def expand(content):
     pickle differs from that of another tail only in its last bytes'''
     if isinstance(content, dict) and '__big__' in content:
         h, t = content['__big__']
-        if h not in BIG:
+        if h >= 2:
+            # above one MiB (block-wise readers)
+            if h not in BIG:
+                BIG[h] = list(range(h, h + 420000))
+        elif h not in BIG:
             BIG[h] = list(range(h, h + 30000))
         return {'head': BIG[h], 'tail': t}
     return content
@@ -311,7 +315,38 @@ class Store:
     def update_with_conn_fault(self, t, run, i, contents, n, kind):
         '''update() during which the n-th round trip to the database server
         breaks once; returns (update()'s result or None when it raised,
-        whether the fault fired)'''
+        whether the fault fired).  kind 'move': instead, the server's move of
+        a staged blob into the store fails once (disk full).'''
+        if kind == 'move':
+            import dawgie.db.util as dbu
+            import shutil
+
+            saved = dbu.shutil
+            left = [n % 3]
+            fired = [False]
+
+            def move(a, b):
+                if left[0] is not None:
+                    if left[0] == 0:
+                        left[0] = None
+                        fired[0] = True
+                        raise OSError(28, 'No space left on device '
+                                      '(injected)', b)
+                    left[0] -= 1
+                return shutil.move(a, b)
+
+            dbu.shutil = _Proxy(saved, {'move': move})
+            try:
+                try:
+                    res = self.update(t, run, i, contents)
+                except OSError:
+                    res = None
+            finally:
+                dbu.shutil = saved
+                from dawgie.db.shelve.state import DBI
+
+                DBI()._DBI__reopened = False
+            return res, fired[0]
         rig.CONN_FAULT[0] = [n, kind]
         try:
             try:
@@ -702,7 +737,8 @@ _leaf = st.one_of(
     st.integers(-5, 5), st.text('ab', max_size=3), st.booleans(), st.none(),
     st.floats(allow_nan=False, allow_infinity=False, width=32),
 )
-big_content = st.tuples(st.integers(0, 1), st.integers(0, 2)).map(
+big_content = st.tuples(st.sampled_from([0, 0, 1, 1, 2]),
+                        st.integers(0, 2)).map(
     lambda t: {'__big__': list(t)})
 content = st.recursive(
     _leaf,
